@@ -291,6 +291,9 @@ static void Judge(const Scen & sc, const std::vector<Got> & got, bool identity)
       if (same) { size_t i = 0, j = 0; while (i < nw) { if (j < ng && *want[i] == *per[s][j] && FEAS(i + 1, j + 1)) { i++; j++; } else { skipped[flag[i]]++; i++; } } }
       #undef FEAS
       if (same) { for (int f = 2; f < 8; f++) if (skipped[f]) { vh::stat(std::string("occurrences_") + FindingKey(f), skipped[f]); Finding(FindingKey(f), vh::fmt("identity script: %ld Message(s) of sender %d not delivered", skipped[f], s)); } continue; }
+      // zlib slave gateway with an undelivered Message in the stream: what follows is inflated against the wrong history and can come out as a
+      // copy of an older Message (same defect as finding|zlib_slave_dependent_stream|never_sent)
+      if (sc.slave == 2) { bool anyOpt = false; for (size_t k = 0; k < flag.size(); k++) if (flag[k] != FIT_YES) anyOpt = true; if (anyOpt) { Finding("finding|zlib_slave_dependent_stream|garbled_after_undelivered_message", vh::fmt("identity script, sender %d: %zu Messages delivered that are not a subsequence of the %zu sent", s, per[s].size(), want.size())); continue; } }
       std::map<std::string, long> c; for (size_t k = 0; k < want.size(); k++) if (flag[k] == FIT_YES) c[*want[k]]++;
       std::map<std::string, long> opt; for (size_t k = 0; k < want.size(); k++) if (flag[k] != FIT_YES) opt[*want[k]]++;
       for (size_t k = 0; k < per[s].size(); k++) { const std::string & b = *per[s][k]; if (c.count(b) && c[b] > 0) c[b]--; else if (opt.count(b) && opt[b] > 0) opt[b]--; else c[b]--; }
